@@ -603,6 +603,10 @@ def explore(item, tier, seed):
                 if kind not in seen_:
                     seen_.add(kind)
                     rep.violation(kind, {"label": lab_, "problem": pr_}, **d)
+    if i == 1 % n:
+        for (dom, ed, tm) in BOUND_EDITS:
+            for kind, d in check_bound_edit(dom, ed, tm, rep):
+                rep.violation(kind, {"label": ("bound-edit", dom, tm), "problem": None, "bound_edit": [dom, list(ed), tm]}, **d)
     if i == 0:
         for (dn, sh, op) in DEEP:
             for kind, d in check_deep(dn, sh, op, rep):
@@ -626,7 +630,59 @@ def explore(item, tier, seed):
     return rep
 
 
+BOUND_EDITS = [(d, e, t) for d in ("continuous", "integer", "binary") for e in (("ub", 0.0), ("lb", 1.0), ("ub", 0.5), ("lb", 0.25), ("ub", None))
+               for t in ("before-first-extraction", "after-extraction-and-solve")]
+
+
+def check_bound_edit(domain, edit, timing, rep=None, want=None):
+    """bounds EDITED on a variable object after it was declared (a switch fixed off: y.ub = 0) - before anything was
+    extracted, or on a warm problem - are the declared bounds from then on, for every domain"""
+    import warnings
+
+    import optyx
+    from optyx import analysis
+
+    fails = Fails(want)
+    x = optyx.Variable("x", lb=0.0, ub=10.0)
+    y = optyx.Variable("y", lb=0.0, ub=1.0, domain=domain)
+    z = optyx.VectorVariable("z", 2, lb=0.0, ub=1.0, domain=domain)
+    P = optyx.Problem().minimize(x + 2 * y + z[0] + 3 * z[1]).subject_to(x + y + z[0] + z[1] >= 1)
+    with warnings.catch_warnings():
+        warnings.simplefilter("ignore")
+        try:
+            if timing == "after-extraction-and-solve":
+                analysis.LinearProgramExtractor().extract(P)
+                with Seam(script=[lambda call: result(np.zeros(len(call.kw["c"])), fun=0.0)]):
+                    P.solve()
+            for v in (y, z[1]):
+                setattr(v, edit[0], edit[1])
+            lp = analysis.LinearProgramExtractor().extract(P)
+            with Seam(script=[lambda call: result(np.zeros(len(call.kw["c"])), fun=0.0)]) as s:
+                P.solve()
+        except Exception as ex:
+            fails.add("exception:bound-edit:" + type(ex).__name__, msg=str(ex)[:200])
+            return fails
+    if rep:
+        rep.states += 1
+        rep.transitions += 6
+        rep.evaluations += 2
+        rep.nt(("bound-edit", domain, edit, timing))
+    names = [v.name for v in P.variables]
+    exp = [(v.lb, v.ub) for v in P.variables]
+    got = [tuple(b) for b in lp.bounds]
+    if list(lp.variables) != names or got != exp:
+        fails.add("bounds:after-edit", names=list(lp.variables), got=got, expected=exp)
+    lin = [cl for cl in s.calls if cl.kind == "linprog"]
+    if lin:
+        gb = [tuple(b) for b in (lin[0].kw.get("bounds") or [])]
+        if gb != exp:
+            fails.add("bounds-at-back-end:after-edit", got=gb, expected=exp)
+    return fails
+
+
 def culprit(v):
+    if v["case"].get("bound_edit"):
+        return {"kind": v["kind"], "domain": v["case"]["bound_edit"][0], "timing": v["case"]["bound_edit"][2]}
     # the spelling label identifies the failing construct; coefficients are abstracted away
     lab = detuple(v["case"]["label"])
     return {"kind": v["kind"], "spelling": lab[:2] if lab[0] in ("obj", "con") else lab[:2]}
@@ -634,6 +690,9 @@ def culprit(v):
 
 def replay(art):
     kind = art["culprit"]["kind"]
+    if art["violation"]["case"].get("bound_edit"):
+        dom, ed, tm = art["violation"]["case"]["bound_edit"]
+        return [{"kind": k, "detail": d} for k, d in check_bound_edit(dom, tuple(ed), tm, None, want=kind)]
     if art["violation"]["case"].get("deep"):
         dn, sh, op = art["violation"]["case"]["deep"]
         return [{"kind": k, "detail": d} for k, d in check_deep(dn, sh, op, None, want=kind)]
